@@ -176,7 +176,7 @@ def run(R):
         R.eq([(d['off'], d['width'], d['endian']) for d in pw], [(0, 1, 'be'), (1, 4, 'be')], 'C03.R3', 'prefix-writes', site(fe), 'prefix writes as (offset, width, byte order)')
         if len(pw) == 2:
             flag = bool_source(pw[0]['value'])
-            R.check(flag is not None and (is_call(flag, name='is_some') or (flag[0] == 'arg' and fe.ty(flag[1]) == 'bool')), 'C03.R3', 'flag-is-bool-cast', site(fe, pw[0]['bb']), 'flag = %s (made from a bool: 0 or 1)' % show(pw[0]['value'])[:100])
+            R.check(flag is not None and (is_call(flag, name='is_some') or loc_of(flag) in locs_of_type(tonic, fe, r'^bool$')), 'C03.R3', 'flag-is-bool-cast', site(fe, pw[0]['bb']), 'flag = %s (made from a bool: 0 or 1)' % show(pw[0]['value'])[:100])
             ln = payload_len_source(pw[1]['value'])
             R.check('SubWithOverflow' in show(ln) and 'const(%d)' % W['header_size'] in show(ln), 'C03.R3', 'length=payload', site(fe, pw[1]['bb']), 'length = %s' % show(ln)[:100])
 
@@ -186,10 +186,13 @@ def run(R):
         C01.run_codec_tables(R, tonic, tag='@C03', rule='C03.R4')
         pn = tonic.body(re.compile(r'codec::encode::EncodedBytes<T, U> as .*Stream>::poll_next$'))
         bb, t = pn.call1(name='encode_item')
-        R.check('compression_encoding' in show(pn.origin(t['args'][3])), 'C03.R4', 'effective-encoding-to-encode_item', site(pn, bb), 'encoding = %s' % show(pn.origin(t['args'][3])))
+        ei_ = tonic.body('codec::encode::encode_item')
+        via_ = loc_through_call(pn, t, loc_of_type(tonic, ei_, r'Option<.*CompressionEncoding>'))
+        enc_t = via_[1] if via_ and via_[0] == 'term' else (None if not via_ else ('arg', via_[1][0], None) if not via_[1][1] else ('field', ('arg', via_[1][0], None), via_[1][1][-1]))
+        R.check(enc_t is not None and 'compression_encoding' in show(enc_t), 'C03.R4', 'effective-encoding-to-encode_item', site(pn, bb), 'encoding = %s' % (show(enc_t) if enc_t else None))
         ei = tonic.body('codec::encode::encode_item')
-        enc_n = param_of_type(ei, r'Option<.*CompressionEncoding>')
-        sw = [x for x in sorted(ei.live_blocks()) if ei.term(x)['k'] == 'switch' and ei.origin(ei.term(x)['on'])[0] == 'discr' and strip_refs(ei.origin(ei.term(x)['on'])[1])[:2] == ('arg', enc_n)]
+        enc_loc = loc_of_type(tonic, ei, r'Option<.*CompressionEncoding>')
+        sw = [x for x in sorted(ei.live_blocks()) if ei.term(x)['k'] == 'switch' and ei.origin(ei.term(x)['on'])[0] == 'discr' and is_loc(ei.origin(ei.term(x)['on'])[1], enc_loc)]
         R.check(len(sw) == 1, 'C03.R4', 'compress-iff-encoding', site(ei), 'switch on compression_encoding: %d' % len(sw))
         if sw:
             cb, ct = ei.call1(pat='compression::compress')
@@ -204,7 +207,7 @@ def run(R):
             okn = all(cb not in ei.reachable(t_, removed={sw[0]}) for t_ in none_t)
             R.check(okn, 'C03.R4', 'no-compress-on-none-arm', site(ei, cb), 'without an encoding (flag 0) compress() is unreachable: %r' % okn)
             st = strip_refs(ei.origin(ct['args'][0]))
-            okenc = st[0] == 'agg' and term_contains(st[2][0], lambda x: x and x[0] == 'variant' and x[2] == 'Some') and mentions_arg(st[2][0], enc_n)
+            okenc = st[0] == 'agg' and term_contains(st[2][0], lambda x: x and x[0] == 'variant' and x[2] == 'Some') and mentions_loc(st[2][0], enc_loc)
             R.check(okenc, 'C03.R4', 'compress-with-that-encoding', site(ei, cb), 'settings.encoding = %s' % show(st[2][0] if st[0] == 'agg' else st))
 
     if R.tier == 'thorough':
